@@ -102,7 +102,10 @@ class HTTPChannel(wasyncore.dispatcher):
             #    because it's either data left over from task output
             #    or a 100 Continue line sent within "received".
             flush = self._flush_some_if_lockable
-        elif self.total_outbufs_len >= self.adj.send_bytes:
+        elif (
+            self.total_outbufs_len >= self.adj.send_bytes
+            or self.total_outbufs_len > self.adj.outbuf_high_watermark
+        ):
             # 1. There's a running task, so we need to try to lock
             #    the outbuf before sending
             # 2. Only try to send if the data in the out buffer is larger
